@@ -62,7 +62,16 @@ constexpr uintptr_t VSBX_STRIDE = VSBX_STRIDE_BYTES;
 inline bool g_slot_used[64];
 inline thread_local uintptr_t g_last_same_sbx[2] = { 0, 0 };
 inline thread_local unsigned long g_n_same_sbx = 0;
+inline thread_local uintptr_t g_first_same_sbx[2] = { 0, 0 };   // the first pair checked since g_n_same_sbx was last reset
 inline int g_next_slot_hint = 0;
+// harness knobs for the allocation path only: the allocator inside the sandbox is guest code (its result is forced to
+// g_malloc_force_value), and the backend translates that result like a backend that does not clamp (base + value)
+inline thread_local bool g_malloc_force = false;
+inline thread_local uint64_t g_malloc_force_value = 0;
+inline thread_local bool g_unclamped = false;
+// a backend is not obliged to scrub its own fields in impl_destroy_sandbox: with this knob the destroyed instance keeps
+// describing its old memory range (its memory is unmapped and its address slot is free for the next sandbox)
+inline bool g_keep_stale_fields = false;
 
 } // namespace vsbx
 
@@ -94,6 +103,7 @@ public:
 
   // ----- observable state (public: this is the harness's own backend) -----
   uintptr_t Base = 0;
+  bool mapped = false;
   int slot = -1;
   size_t brk = 16;
   uint64_t n_malloc = 0, n_free = 0;
@@ -130,7 +140,7 @@ public:
   }
 
   // harness use only: give the address slot back even when destroy_sandbox could not run
-  void force_release() { if (Base != 0) impl_destroy_sandbox(); }
+  void force_release() { if (mapped) impl_destroy_sandbox(); }
 
 protected:
   inline bool impl_create_sandbox(const vsbx::Library* library = nullptr, bool ok = true, int want_slot = -1)
@@ -156,6 +166,7 @@ protected:
     vsbx::g_slot_used[s] = true;
     slot = s;
     Base = want;
+    mapped = true;
     brk = 16;
     lib = library;
     return ok;
@@ -166,9 +177,14 @@ protected:
     const size_t guard = 1u << 16;
     munmap(reinterpret_cast<void*>(Base - guard), Size + 2 * guard);
     vsbx::g_slot_used[slot] = false;
-    Base = 0;
-    slot = -1;
-    lib = nullptr;
+    mapped = false;
+    if (!vsbx::g_keep_stale_fields) {
+      Base = 0;
+      slot = -1;
+      lib = nullptr;
+    }
+    // entry points handed out to this incarnation die with it (as in the bundled backends)
+    for (uint32_t i = 0; i < NCB; i++) { callback_unique_keys[i] = nullptr; callbacks[i] = nullptr; callback_sigs[i] = nullptr; }
   }
 
   template<typename T>
@@ -180,6 +196,7 @@ protected:
       // unknown table index: a non-null, non-callable marker that is not a data address
       return const_cast<char*>(&cbdesc[0]) + 0; // deliberately the first descriptor
     } else {
+      if (vsbx::g_unclamped) return reinterpret_cast<void*>(Base + static_cast<uintptr_t>(p));
       return reinterpret_cast<void*>(Base + (static_cast<uintptr_t>(p) & OffMask));
     }
   }
@@ -227,6 +244,7 @@ protected:
   inline T_PointerType impl_malloc_in_sandbox(size_t size)
   {
     n_malloc++;
+    if (vsbx::g_malloc_force) return static_cast<T_PointerType>(vsbx::g_malloc_force_value);
     size_t r = (size + 7) & ~size_t(7);
     if (r < size || brk + r > Size || brk + r < brk) return 0;
     auto ret = static_cast<T_PointerType>(brk);
@@ -241,6 +259,7 @@ public:
   {
     // observable for the harness: the last pair that was range/arith-checked on this thread
     vsbx::g_last_same_sbx[0] = reinterpret_cast<uintptr_t>(p1); vsbx::g_last_same_sbx[1] = reinterpret_cast<uintptr_t>(p2);
+    if (vsbx::g_n_same_sbx == 0) { vsbx::g_first_same_sbx[0] = vsbx::g_last_same_sbx[0]; vsbx::g_first_same_sbx[1] = vsbx::g_last_same_sbx[1]; }
     vsbx::g_n_same_sbx++;
     return (Mask & reinterpret_cast<uintptr_t>(p1)) == (Mask & reinterpret_cast<uintptr_t>(p2));
   }
